@@ -51,9 +51,13 @@ class World:
         if qos == 'Guaranteed':
             if prof == 'iso':      # whole-CPU requests the size of the isolated sets of the machines (1, 2, 4 CPUs)
                 return r.choice([1000, 1000, 1000, 2000, 2000, 4000, 1500, 3000])
+            if prof == 'brim':     # mixed whole+fractional requests arriving in a tree that is filled to the brim
+                return r.choice([1500, 1500, 2500, 1200, 1800, 1100, 2200, 1000])
             if prof == 'fill':
                 return r.choice([1000, 2000, 2000, 3000, 4000, 1500, 2500, 500])
             return r.choice([100, 500, 750, 1000, 1000, 1500, 2000, 2000, 2500, 3000, 4000, 6000, 1000 * max(1, self.ncpu // 2)])
+        if prof == 'brim':
+            return r.choice([300, 700, 900, 1300, 1700, 2300, 2900, 3300])
         return r.choice([1, 2, 3, 100, 250, 500, 900, 1000, 1200, 2000, 2500, 3000])
 
     def mem_limit(self, qos):
@@ -62,7 +66,7 @@ class World:
             return r.choice([0, 0, 128 * MiB])
         if self.profile == 'light':
             return r.choice([0, 64 * MiB, 128 * MiB])
-        frac = r.choice([0, 0.01, 0.05, 0.2, 0.3, 0.45, 0.6, 0.8, 1.1, 1.7]) if self.profile in ('mem', 'fill', 'mempres') else r.choice([0, 0.01, 0.05, 0.1, 0.3, 0.6])
+        frac = r.choice([0, 0.01, 0.05, 0.2, 0.3, 0.45, 0.6, 0.8, 1.1, 1.7]) if self.profile in ('mem', 'fill', 'mempres') and self.profile != 'brim' else r.choice([0, 0.01, 0.05, 0.1, 0.3, 0.6])
         return int(self.nodemem * frac)
 
     def resources(self, qos, milli=None, mem=None):
@@ -83,6 +87,10 @@ class World:
         self.nctr += 1
         i = self.nctr
         res, oom, milli = self.resources(pod['qos'], milli, mem)
+        if any(k.startswith('memory.preserve.') for k in pod.get('annotations', {})) and self.rng.random() < 0.7:
+            # a memory-preserving container keeps what the runtime gave it: give it something to keep
+            nodes = [n['id'] for n in self.machine['nodes'] if n['has_memory'] and n['memtotal'] > 0 and n.get('cpus')] or [0]
+            res['mems'] = str(self.rng.choice(nodes))
         c = dict(id='c%03d' % i, pod=pod['id'], name=name or 'ctr%d' % (i % 4), state='created', annotations={}, labels={}, res=res, oomadj=oom)
         c['_milli'] = milli
         return c
@@ -423,7 +431,7 @@ def gen_history(rng, policy, machine, machine_path, nevents=40, profile='mixed',
             continue
         x = r.random()
         npods = len(w.pods)
-        target = 6 if profile != 'fill' else 10
+        target = 6 if profile not in ('fill', 'brim') else (10 if profile == 'fill' else 14)
         if profile == 'light':
             target = 4
         if x < 0.30 and len(live) < target or not w.pods:
